@@ -163,6 +163,13 @@ def num_binop(ex, opn, l, r):
         kind = 'complex'
     else:
         kind = 'float'
+    if opn == 'Pow' and isinstance(r, float) and r in (0.5, 1.5, -0.5) and isinstance(l, (int, float)) and not isinstance(l, bool) and l > 0 \
+            and float(l) ** 0.5 != int(float(l) ** 0.5):
+        # irrational power of a concrete number: keep it exact (floats are mathematical reals in this model)
+        sq = sym_sqrt(ex, l)
+        a = real_expr(l)
+        e_ = {0.5: sq.expr, 1.5: sq.expr * a, -0.5: 1 / sq.expr}[r]
+        return SymScalar(e_, 'float', 'float')
     if not isinstance(l, SymScalar) and not isinstance(r, SymScalar) and not is_sym(l) and not is_sym(r):
         try:
             if opn == 'Add':
